@@ -25,6 +25,12 @@ def root_of(body, op, through=THROUGH):
     """canonical single root of an operand or None; refs/derefs are transparent"""
     o = body.origins(op, through_calls=through)
     if len(o) != 1:
+        # a variable with several definitions (e.g. an Option built as None or Some): the
+        # variable itself is the root
+        if op[0] in ("cp", "mv"):
+            from mir import _proj_key
+            pl = op[1]
+            return ("local", pl[0]) + tuple(k for k in (_proj_key(e) for e in pl[1:]) if k not in ("*", "&"))
         return None
     r = next(iter(o))
     return canon_root(body, r)
@@ -187,7 +193,10 @@ def enumerate_paths(body, start, end_of, max_paths=50000, opaque_ok=None):
         else:
             succs = body.succ[bb]
             if not succs:
-                out.append(Path(blocks, decs, "deadend:" + t[0]))
+                # `unreachable` terminators are the compiler's own impossible arms (e.g. the
+                # otherwise-arm of an exhaustive match): not a path
+                if t[0] != "unreachable":
+                    out.append(Path(blocks, decs, "deadend:" + t[0]))
                 continue
             for b in succs:
                 if b in blocks:
